@@ -33,6 +33,17 @@ def purge_jobs(max_age_s=5400):
             pass
 
 
+    td = os.path.join(CACHE, "tlc")
+    for fn in os.listdir(td):          # state directories left behind by TLC runs that were killed
+        fp = os.path.join(td, fn)
+        try:
+            if os.path.isdir(fp) and now - os.path.getmtime(fp) > 3 * 3600:
+                import shutil
+                shutil.rmtree(fp, ignore_errors=True)
+        except OSError:
+            pass
+
+
 purge_jobs()
 
 
